@@ -217,6 +217,82 @@ func checkC11(p *core.Program, r *core.Report) {
 			}
 		}
 	})
+	// R6: the connection that loses the double-connection decision is ended without the announce delay
+	const R6 = "C11.R6 superseded-closed-at-once"
+	r.Rule(R6, "in the double-connection decision function every CloseConnection of the superseded connection passes the constant safe=false: a graceful close defers the end report by the announce wait, so it arrives after the surviving connection was set up and the last notification says 'disconnected' while a completed connection is registered")
+	mClose := p.IfaceMethod("api", "ShipConnectionInterface", "CloseConnection")
+	ha := findHub(p, r, R6)
+	if mClose == nil || ha == nil {
+		r.Unresolved(R6, "api.ShipConnectionInterface.CloseConnection")
+		return
+	}
+	ensureCallSites(p)
+	// constFalse: v is the constant false, or a parameter that receives the constant false at every call site
+	var constFalse func(v ssa.Value, depth int) bool
+	constFalse = func(v ssa.Value, depth int) bool {
+		if isBoolConst(v, false) {
+			return true
+		}
+		pa, ok := v.(*ssa.Parameter)
+		if !ok || depth == 0 {
+			return false
+		}
+		idx := -1
+		for i, q := range pa.Parent().Params {
+			if q == pa {
+				idx = i
+			}
+		}
+		sites := gCallSites[pa.Parent()]
+		if idx < 0 || len(sites) == 0 {
+			return false
+		}
+		for _, cs := range sites {
+			c := core.Common(cs)
+			if c == nil || idx >= len(c.Args) || !constFalse(c.Args[idx], depth-1) {
+				return false
+			}
+		}
+		return true
+	}
+	for _, fn := range decisionFuncs(ha) {
+		seen := map[*ssa.Function]bool{}
+		var visit func(g *ssa.Function, d int)
+		visit = func(g *ssa.Function, d int) {
+			if g == nil || seen[g] || g.Blocks == nil {
+				return
+			}
+			seen[g] = true
+			for _, an := range g.AnonFuncs {
+				visit(an, d)
+			}
+			core.EachInstr(g, func(in ssa.Instruction) {
+				c := core.Common(in)
+				if c == nil {
+					return
+				}
+				if t := c.StaticCallee(); t != nil && d > 0 && p.PkgShort(t) == "hub" && t.Signature.Recv() != nil && t != hcc {
+					// helper taking the superseded connection
+					for _, a := range c.Args {
+						if core.TypeIs(a.Type(), apiPath, "ShipConnectionInterface") {
+							visit(t, d-1)
+						}
+					}
+				}
+				if !core.IsInvokeOf(in, mClose) {
+					return
+				}
+				key := "close of the superseded connection in " + p.FnName(fn)
+				if len(c.Args) > 0 && constFalse(c.Args[0], 2) {
+					r.OK(R6, key, p.Pos(in.Pos()), "closed with safe=false: the end is reported at once")
+				} else {
+					r.Fail(R6, key, p.Pos(in.Pos()), "the superseded connection is closed gracefully (safe is not the constant false): its end report is deferred by the close-announce wait and overtakes the set-up notification of the surviving connection")
+				}
+			})
+		}
+		visit(fn, 2)
+	}
+	r.Floor(R6, 1)
 	_ = types.Typ
 }
 
